@@ -1497,8 +1497,13 @@ func runCase(c Case) (vkit.Info, error) {
 				}
 				continue
 			}
+			before := faultkv.Dump(f.base)
 			if f.mgr, err = f.newManager(f.fkv); err != nil {
 				return info, fmt.Errorf("op %d: restart on the same storage failed: %v", i, err)
+			}
+			// nothing is in doubt: the storage holds exactly what is served and a load has nothing to repair
+			if after := faultkv.Dump(f.base); !reflect.DeepEqual(before, after) {
+				return info, fmt.Errorf("op %d (restart): loading changed the storage: before %v, after %v", i, before, after)
 			}
 			f.fkv.TakeLog()
 			f.fkv.ResetCounters()
